@@ -3,8 +3,16 @@ LEAN_TARGETS = ["QmcProps.C11", "drv_c11"]
 BINS = ["c11"]
 
 THEOREMS = [
+    "refine_step",
+    "refine_seq",
+    "refine_seq_new",
+    "mutate_p_refines",
+    "cursor_correct",
     "getters_eq_scan",
+    "getters_after_history",
     "interface_algorithms_agree",
+    "refine_step_canon",
+    "applyC_shape",
     "new_inv",
     "inv_implies_global",
     "endsOK_of_inv",
